@@ -134,6 +134,21 @@ def gval(v):
     raise ValueError("value outside the modelled universe: %r" % (v,))
 
 
+class FD(dict):
+    """a FrozenDict seen in a raw (unconverted) result, as opposed to a plain Python dict"""
+
+
+def gval_kind(v):
+    """like gval, but keeping the container kinds: list / tuple, dict / FrozenDict (FD)"""
+    if isinstance(v, tuple):
+        return "(VList false %s)" % gal.lst(gval_kind(x) for x in v)
+    if isinstance(v, list):
+        return "(VList true %s)" % gal.lst(gval_kind(x) for x in v)
+    if isinstance(v, dict):
+        return "(VDict %s %s)" % ("false" if isinstance(v, FD) else "true", gal.lst(gal.pair(gval_kind(k), gval_kind(x)) for k, x in v.items()))
+    return gval(v)
+
+
 def gvals(vs):
     return gal.lst(gval(x) for x in vs)
 
@@ -904,6 +919,8 @@ def engine_opts(**opts):
             o["yaql.limitIterators"] = opts["limit"]
         if opts.get("noconv"):
             o["yaql.convertInputData"] = False
+        if opts.get("rawout"):
+            o["yaql.convertOutputData"] = False
         _engines_opt[key] = yaql.YaqlFactory().create(options=o)
     return _engines_opt[key]
 
